@@ -1,4 +1,674 @@
-import MetapypeModel.Model.Xml
+import MetapypeModel.Model.XmlGrammar
+/-
+  C07 — XML export is well-formed and round-trips the tree.
+
+  Well-formedness is stated against the relational grammar `Den` of Model/XmlGrammar.lean (my reading of
+  XML 1.0 for the subset the exporters emit; lxml and expat validate it only through the correspondence
+  check).  The theorems are for every legal tree, by mutual induction on trees.
+-/
 namespace Metapype
-theorem C07_placeholder : True := trivial
+
+/- ------------------------------------------------------------------ escaping -/
+
+theorem escapeText_den : ∀ (s : Str), (∀ c ∈ s, xmlChar c = true) → CharData (escapeText s) s
+  | [], _ => CharData.nil
+  | c :: s, h => by
+    have ih := escapeText_den s (fun x hx => h x (List.mem_cons_of_mem _ hx))
+    have hc := h c List.mem_cons_self
+    simp only [escapeText, List.flatMap_cons]
+    unfold escChar
+    by_cases h1 : c = '&'
+    · subst h1; simp only [if_true]; exact CharData.amp ih
+    · rw [if_neg h1]
+      by_cases h2 : c = '<'
+      · subst h2; simp only [if_true]; exact CharData.lt ih
+      · rw [if_neg h2]
+        by_cases h3 : c = '>'
+        · subst h3; simp only [if_true]; exact CharData.gt ih
+        · rw [if_neg h3]; exact CharData.lit c hc h2 h1 h3 ih
+
+theorem escapeAttr_den : ∀ (s : Str), (∀ c ∈ s, xmlChar c = true) → AttValue (escapeAttr s) s
+  | [], _ => AttValue.nil
+  | c :: s, h => by
+    have ih := escapeAttr_den s (fun x hx => h x (List.mem_cons_of_mem _ hx))
+    have hc := h c List.mem_cons_self
+    simp only [escapeAttr, List.flatMap_cons]
+    unfold escAttrChar escChar
+    by_cases h0 : c = '"'
+    · subst h0; simp only [if_true]; exact AttValue.quot ih
+    · rw [if_neg h0]
+      by_cases h1 : c = '&'
+      · subst h1; simp only [if_true]; exact AttValue.amp ih
+      · rw [if_neg h1]
+        by_cases h2 : c = '<'
+        · subst h2; simp only [if_true]; exact AttValue.lt ih
+        · rw [if_neg h2]
+          by_cases h3 : c = '>'
+          · subst h3; simp only [if_true]; exact AttValue.gt ih
+          · rw [if_neg h3]; exact AttValue.lit c hc h2 h1 h0 ih
+
+/-- escaped text contains no `<`, and every `&` in it starts one of the three entities (by construction of `CharData`);
+    in particular the two special characters never appear raw -/
+theorem escChar_no_lt (c : Char) : '<' ∉ escChar c := by
+  unfold escChar
+  by_cases h1 : c = '&'
+  · rw [if_pos h1]; decide
+  · rw [if_neg h1]
+    by_cases h2 : c = '<'
+    · rw [if_pos h2]; decide
+    · rw [if_neg h2]
+      by_cases h3 : c = '>'
+      · rw [if_pos h3]; decide
+      · rw [if_neg h3]; simpa using fun e => h2 e.symm
+
+theorem escapeText_no_lt (s : Str) : '<' ∉ escapeText s := by
+  induction s with
+  | nil => simp [escapeText]
+  | cons c s ih =>
+    simp only [escapeText, List.flatMap_cons, List.mem_append, not_or] at ih ⊢
+    exact ⟨escChar_no_lt c, ih⟩
+
+theorem escapeAttr_no_quote_lt (s : Str) : '"' ∉ escapeAttr s ∧ '<' ∉ escapeAttr s := by
+  induction s with
+  | nil => simp [escapeAttr]
+  | cons c s ih =>
+    simp only [escapeAttr, List.flatMap_cons, List.mem_append, not_or] at ih ⊢
+    have hc : '"' ∉ escAttrChar c ∧ '<' ∉ escAttrChar c := by
+      unfold escAttrChar
+      by_cases h0 : c = '"'
+      · rw [if_pos h0]; decide
+      · rw [if_neg h0]
+        refine ⟨?_, escChar_no_lt c⟩
+        unfold escChar
+        by_cases h1 : c = '&'
+        · rw [if_pos h1]; decide
+        · rw [if_neg h1]
+          by_cases h2 : c = '<'
+          · rw [if_pos h2]; decide
+          · rw [if_neg h2]
+            by_cases h3 : c = '>'
+            · rw [if_pos h3]; decide
+            · rw [if_neg h3]; simpa using fun e => h0 e.symm
+    exact ⟨⟨hc.1, ih.1⟩, ⟨hc.2, ih.2⟩⟩
+
+/- ------------------------------------------------------------------ legal trees -/
+
+def attrValOK (v : String) : Prop := ∀ c ∈ v.toList, xmlChar c = true
+def textOK (s : Option String) : Prop := ∀ x, s = some x → ∀ c ∈ x.toList, xmlChar c = true
+def dictOK (pfx : Str) (d : Dict) : Prop := ∀ kv ∈ d, qName (pfx ++ kv.1.toList) = true ∧ attrValOK kv.2
+
+def nsDecl (ns : Dict) (parentNs : Option Dict) : Dict :=
+  match parentNs with
+  | none => ns
+  | some pns => if dictEq ns pns then [] else nspUnique ns pns
+
+/-- the attribute list the start tag denotes: attributes, namespace declarations, extras, in that order -/
+def attrList (a e ns : Dict) (parentNs : Option Dict) : List (Str × Str) :=
+  a.map (fun kv => (kv.1.toList, kv.2.toList)) ++
+  (nsDecl ns parentNs).map (fun kv => ("xmlns:".toList ++ kv.1.toList, kv.2.toList)) ++
+  e.map (fun kv => (kv.1.toList, kv.2.toList))
+
+mutual
+/-- XML-legal names, XML characters in every value, pairwise distinct attribute names on each element -/
+def Legal : Tree → Option Dict → Prop
+  | .mk _ n c tl p a e ns cs, parentNs =>
+      qName (tagOf n p) = true ∧ dictOK [] a ∧ dictOK "xmlns:".toList (nsDecl ns parentNs) ∧ dictOK [] e ∧
+      ((attrList a e ns parentNs).map (·.1)).Nodup ∧ textOK c ∧ textOK tl ∧ LegalL cs ns
+def LegalL : List Tree → Dict → Prop
+  | [], _ => True
+  | c :: cs, pns => Legal c (some pns) ∧ LegalL cs pns
+end
+
+/- ------------------------------------------------------------------ the denoted value -/
+
+mutual
+def xElemG : Tree → Option Dict → Nat → X
+  | .mk _ n c _ p a e ns cs, parentNs, level =>
+      .elem (tagOf n p) (attrList a e ns parentNs)
+        (match c, cs with
+         | none, [] => []
+         | none, _ => [X.text "\n".toList] ++ xKidsG cs ns (level + 1) ++ [X.text (indentOf level)]
+         | some content, _ => [X.text content.toList] ++ xKidsG cs ns (level + 1))
+/-- per child: its indentation as text, the element, then a newline and its tail as text -/
+def xKidsG : List Tree → Dict → Nat → List X
+  | [], _, _ => []
+  | c :: cs, pns, level =>
+      [X.text (indentOf level), xElemG c (some pns) level, X.text ("\n".toList ++ (match c.tail with | some t => t.toList | none => []))] ++
+      xKidsG cs pns level
+end
+
+theorem attrItems_den (pfx : Str) : ∀ (d : Dict), dictOK pfx d →
+    AttrsDen (attrItems pfx d) (d.map (fun kv => (pfx ++ kv.1.toList, kv.2.toList)))
+  | [], _ => AttrsDen.nil
+  | kv :: d, h => by
+    have h1 := h kv List.mem_cons_self
+    have ih := attrItems_den pfx d (fun x hx => h x (List.mem_cons_of_mem _ hx))
+    simp only [attrItems, List.flatMap_cons, List.map_cons]
+    have := AttrsDen.cons (k := pfx ++ kv.1.toList) h1.1 (escapeAttr_den kv.2.toList h1.2) ih
+    simp only [attrItems, List.append_assoc] at this ⊢
+    exact this
+
+theorem AttrsDen_append : ∀ {s₁ s₂ : Str} {a₁ a₂ : List (Str × Str)}, AttrsDen s₁ a₁ → AttrsDen s₂ a₂ → AttrsDen (s₁ ++ s₂) (a₁ ++ a₂)
+  | _, _, _, _, .nil, h2 => by simpa using h2
+  | _, _, _, _, .cons hk hv hr, h2 => by
+    have := AttrsDen.cons hk hv (AttrsDen_append hr h2)
+    simp only [List.append_assoc, List.cons_append] at this ⊢
+    exact this
+
+theorem attrString_den (a e ns : Dict) (parentNs : Option Dict)
+    (ha : dictOK [] a) (hn : dictOK "xmlns:".toList (nsDecl ns parentNs)) (he : dictOK [] e) :
+    AttrsDen (attrString a e ns parentNs) (attrList a e ns parentNs) := by
+  unfold attrString attrList
+  have h1 := attrItems_den [] a ha
+  have h2 := attrItems_den "xmlns:".toList (nsDecl ns parentNs) hn
+  have h3 := attrItems_den [] e he
+  simp only [List.nil_append] at h1 h3
+  exact AttrsDen_append (AttrsDen_append h1 (by unfold nsDecl at h2; exact h2)) h3
+
+theorem indent_chardata (level : Nat) : CharData (indentOf level) (indentOf level) := by
+  unfold indentOf
+  induction level with
+  | zero => exact CharData.nil
+  | succ k ih =>
+    simp only [List.replicate_succ, List.flatten_cons]
+    exact CharData.lit ' ' (by decide) (by decide) (by decide) (by decide)
+      (CharData.lit ' ' (by decide) (by decide) (by decide) (by decide) ih)
+
+theorem CharData_append : ∀ {s₁ v₁ s₂ v₂ : Str}, CharData s₁ v₁ → CharData s₂ v₂ → CharData (s₁ ++ s₂) (v₁ ++ v₂)
+  | _, _, _, _, .nil, h2 => h2
+  | _, _, _, _, .lit c a b d e h, h2 => CharData.lit c a b d e (CharData_append h h2)
+  | _, _, _, _, .amp h, h2 => by have := CharData.amp (CharData_append h h2); simpa [List.append_assoc] using this
+  | _, _, _, _, .lt h, h2 => by have := CharData.lt (CharData_append h h2); simpa [List.append_assoc] using this
+  | _, _, _, _, .gt h, h2 => by have := CharData.gt (CharData_append h h2); simpa [List.append_assoc] using this
+
+theorem nl_tail_chardata (t : Tree) (h : textOK t.tail) :
+    CharData ("\n".toList ++ tailStr t) ("\n".toList ++ (match t.tail with | some x => x.toList | none => [])) := by
+  apply CharData_append
+  · exact CharData.lit '\n' (by decide) (by decide) (by decide) (by decide) CharData.nil
+  · unfold tailStr
+    cases ht : t.tail with
+    | none => exact CharData.nil
+    | some x => exact escapeText_den x.toList (h x ht)
+
+mutual
+/-- the general exporter's element string is well-formed and denotes `xElemG` -/
+theorem elemStrG_den : ∀ (t : Tree) (parentNs : Option Dict) (level : Nat), Legal t parentNs →
+    Den (elemStrG t parentNs level) (xElemG t parentNs level)
+  | .mk i n c tl p a e ns cs, parentNs, level, h => by
+    simp only [Legal] at h
+    obtain ⟨hq, ha, hn, he, hnd, hc, _, hkids⟩ := h
+    have hattrs := attrString_den a e ns parentNs ha hn he
+    cases c with
+    | none =>
+      cases cs with
+      | nil =>
+        simp only [elemStrG, xElemG]
+        exact Den.empty hq hattrs hnd
+      | cons k ks =>
+        simp only [elemStrG, xElemG]
+        have hk := toXmlGL_den (k :: ks) ns (level + 1) hkids
+        have hbody : DenL ("\n".toList ++ toXmlGL (k :: ks) ns (level + 1) ++ indentOf level)
+            ([X.text "\n".toList] ++ xKidsG (k :: ks) ns (level + 1) ++ [X.text (indentOf level)]) := by
+          have h1 : DenL (indentOf level) [X.text (indentOf level)] := by
+            have := DenL.text (indent_chardata level) DenL.nil
+            simpa using this
+          have h2 := DenL_append hk h1
+          have h3 := DenL.text (CharData.lit '\n' (by decide) (by decide) (by decide) (by decide) CharData.nil) h2
+          simpa [List.append_assoc] using h3
+        exact Den.pair hq hattrs hnd hbody
+    | some content =>
+      simp only [elemStrG, xElemG]
+      have hk := toXmlGL_den cs ns (level + 1) hkids
+      have hbody : DenL (escapeText content.toList ++ toXmlGL cs ns (level + 1))
+          ([X.text content.toList] ++ xKidsG cs ns (level + 1)) := by
+        have := DenL.text (escapeText_den content.toList (hc content rfl)) hk
+        simpa using this
+      exact Den.pair hq hattrs hnd hbody
+theorem toXmlGL_den : ∀ (cs : List Tree) (pns : Dict) (level : Nat), LegalL cs pns →
+    DenL (toXmlGL cs pns level) (xKidsG cs pns level)
+  | [], _, _, _ => DenL.nil
+  | c :: cs, pns, level, h => by
+    simp only [LegalL] at h
+    have ih := toXmlGL_den cs pns level h.2
+    have he := elemStrG_den c (some pns) level h.1
+    have htail : textOK c.tail := by
+      cases c with
+      | mk i n cc tl p a e ns ks => simp only [Legal] at h; exact h.1.2.2.2.2.2.2.1
+    simp only [toXmlGL, xKidsG]
+    have h3 := DenL.text (nl_tail_chardata c htail) ih
+    have h2 := DenL.elem he h3
+    have h1 := DenL.text (indent_chardata level) h2
+    simpa [List.append_assoc] using h1
+theorem DenL_append : ∀ {s₁ s₂ : Str} {x₁ x₂ : List X}, DenL s₁ x₁ → DenL s₂ x₂ → DenL (s₁ ++ s₂) (x₁ ++ x₂)
+  | _, _, _, _, .nil, h2 => h2
+  | _, _, _, _, .text hc hr, h2 => by
+    have := DenL.text hc (DenL_append hr h2)
+    simpa [List.append_assoc] using this
+  | _, _, _, _, .elem he hr, h2 => by
+    have := DenL.elem he (DenL_append hr h2)
+    simpa [List.append_assoc] using this
+end
+
+/-- the general exporter emits a well-formed document for every legal tree without a tail on the root -/
+theorem C07_general_wellformed (t : Tree) (h : Legal t none) (hroot : t.tail = none) :
+    DocDen (toXmlG t none 0) (xElemG t none 0) := by
+  refine ⟨elemStrG t none 0, "\n".toList, ?_, elemStrG_den t none 0 h, by decide⟩
+  simp [toXmlG, tailStr, hroot, indentOf]
+
+/- ------------------------------------------------------------------ what the document denotes vs the tree -/
+
+def isWs (c : Char) : Bool := c == ' ' || c == '\n' || c == '\t' || c == '\r'
+/-- strip leading and trailing XML white space -/
+def wsStrip (s : Str) : Str := ((s.dropWhile isWs).reverse.dropWhile isWs).reverse
+
+theorem dropWhile_ws_append (w s : Str) (hw : w.all isWs = true) : (w ++ s).dropWhile isWs = s.dropWhile isWs := by
+  induction w with
+  | nil => rfl
+  | cons c w ih =>
+    simp only [List.all_cons, Bool.and_eq_true] at hw
+    simp only [List.cons_append, List.dropWhile_cons, hw.1, if_true]
+    exact ih hw.2
+
+theorem dropWhile_reverse_ws (s w : Str) (hw : w.all isWs = true) :
+    ((s ++ w).reverse.dropWhile isWs) = (s.reverse.dropWhile isWs) := by
+  rw [List.reverse_append]
+  exact dropWhile_ws_append w.reverse s.reverse (by simpa using hw)
+
+theorem dropWhile_append_nonws (s t : Str) (h : ∃ c ∈ s, isWs c = false) : (s ++ t).dropWhile isWs = s.dropWhile isWs ++ t := by
+  induction s with
+  | nil => obtain ⟨c, hc, _⟩ := h; cases hc
+  | cons x xs ih =>
+    simp only [List.cons_append, List.dropWhile_cons]
+    by_cases hx : isWs x = true
+    · simp only [hx, if_true]
+      apply ih
+      obtain ⟨c, hc, hcw⟩ := h
+      rcases List.mem_cons.mp hc with rfl | hc
+      · rw [hx] at hcw; cases hcw
+      · exact ⟨c, hc, hcw⟩
+    · simp [hx]
+
+theorem dropWhile_nil_of_all {α : Type} (p : α → Bool) : ∀ (l : List α), (∀ x ∈ l, p x = true) → l.dropWhile p = []
+  | [], _ => rfl
+  | x :: xs, h => by
+    simp only [List.dropWhile_cons, h x List.mem_cons_self, if_true]
+    exact dropWhile_nil_of_all p xs (fun y hy => h y (List.mem_cons_of_mem _ hy))
+
+/-- white space added around a text does not change it up to stripping -/
+theorem wsStrip_pad (w₁ s w₂ : Str) (h1 : w₁.all isWs = true) (h2 : w₂.all isWs = true) : wsStrip (w₁ ++ s ++ w₂) = wsStrip s := by
+  unfold wsStrip
+  rw [List.append_assoc, dropWhile_ws_append w₁ _ h1]
+  by_cases hs : ∃ c ∈ s, isWs c = false
+  · rw [dropWhile_append_nonws s w₂ hs, dropWhile_reverse_ws _ w₂ h2]
+  · have hall : s.all isWs = true := by
+      rw [List.all_eq_true]; intro c hc
+      cases hcw : isWs c with
+      | true => rfl
+      | false => exact absurd ⟨c, hc, hcw⟩ hs
+    have e1 : (s ++ w₂).dropWhile isWs = [] := by
+      apply dropWhile_nil_of_all; intro c hc
+      rcases List.mem_append.mp hc with hc | hc
+      · exact (List.all_eq_true.mp hall) c hc
+      · exact (List.all_eq_true.mp h2) c hc
+    have e2 : s.dropWhile isWs = [] := dropWhile_nil_of_all _ _ (List.all_eq_true.mp hall)
+    rw [e1, e2]
+
+theorem indent_ws (level : Nat) : (indentOf level).all isWs = true := by
+  unfold indentOf
+  induction level with
+  | zero => rfl
+  | succ k ih => simp only [List.replicate_succ, List.flatten_cons, List.all_append, ih]; rfl
+
+/-- text before the first element, and every element with the text that follows it up to the next element -/
+def collect : List X → Str × List (X × Str)
+  | [] => ([], [])
+  | .text s :: r => (s ++ (collect r).1, (collect r).2)
+  | .elem tg as ks :: r => ([], (.elem tg as ks, (collect r).1) :: (collect r).2)
+
+def tailText (t : Tree) : Str := match t.tail with | some x => x.toList | none => []
+
+/-- what `collect` finds among the children of an element the exporter wrote: each child element, in order,
+    followed by a newline, its tail and the indentation of whatever comes next -/
+def pairsG (pns : Dict) (level : Nat) (closing : Str) : List Tree → List (X × Str)
+  | [] => []
+  | c :: cs => (xElemG c (some pns) level,
+                "\n".toList ++ tailText c ++ (match cs with | [] => closing | _ => indentOf level)) :: pairsG pns level closing cs
+
+theorem xElemG_is_elem (t : Tree) (p : Option Dict) (l : Nat) : ∃ tg as ks, xElemG t p l = .elem tg as ks := by
+  cases t with
+  | mk i n c tl pf a e ns cs => exact ⟨tagOf n pf, attrList a e ns p, _, by unfold xElemG; rfl⟩
+
+theorem collect_kids (pns : Dict) (level : Nat) (closing : Str) : ∀ (cs : List Tree) (rest : List X),
+    collect rest = (closing, []) →
+    collect (xKidsG cs pns level ++ rest) = ((match cs with | [] => closing | _ => indentOf level), pairsG pns level closing cs)
+  | [], rest, h => by simp only [xKidsG, List.nil_append, h, pairsG]
+  | c :: cs, rest, h => by
+    have ih := collect_kids pns level closing cs rest h
+    obtain ⟨tg, as, ks, he⟩ := xElemG_is_elem c (some pns) level
+    simp only [xKidsG, List.cons_append, List.nil_append, collect, he, ih, pairsG, tailText]
+    simp
+
+/-- child order and surrounding text of the denoted element, for the four shapes of a node -/
+theorem C07_general_children (i n : String) (c tl p : Option String) (a e ns : Dict) (cs : List Tree)
+    (parentNs : Option Dict) (level : Nat) :
+    ∃ kids, xElemG (.mk i n c tl p a e ns cs) parentNs level = .elem (tagOf n p) (attrList a e ns parentNs) kids ∧
+      (collect kids).2 = pairsG ns (level + 1) (match c with | none => indentOf level | some _ => []) cs ∧
+      wsStrip (collect kids).1 = wsStrip (match c with | some x => x.toList | none => []) := by
+  cases c with
+  | none =>
+    cases cs with
+    | nil => exact ⟨[], by simp [xElemG], by simp [collect, pairsG], by simp [collect]⟩
+    | cons k ks =>
+      refine ⟨[X.text "\n".toList] ++ xKidsG (k :: ks) ns (level + 1) ++ [X.text (indentOf level)], by simp [xElemG], ?_, ?_⟩
+      · have := collect_kids ns (level + 1) (indentOf level) (k :: ks) [X.text (indentOf level)] (by simp [collect])
+        simp only [List.append_assoc, List.singleton_append, List.cons_append, List.nil_append, collect, this]
+      · have := collect_kids ns (level + 1) (indentOf level) (k :: ks) [X.text (indentOf level)] (by simp [collect])
+        simp only [List.append_assoc, List.singleton_append, List.cons_append, List.nil_append, collect, this]
+        have h := wsStrip_pad ("\n".toList ++ indentOf (level + 1)) [] [] (by simp [indent_ws]; rfl) rfl
+        simpa using h
+  | some content =>
+    refine ⟨[X.text content.toList] ++ xKidsG cs ns (level + 1), by simp [xElemG], ?_, ?_⟩
+    · have := collect_kids ns (level + 1) [] cs [] (by simp [collect])
+      simp only [List.append_nil] at this
+      simp only [List.singleton_append, collect, this]
+    · have := collect_kids ns (level + 1) [] cs [] (by simp [collect])
+      simp only [List.append_nil] at this
+      simp only [List.singleton_append, collect, this]
+      cases cs with
+      | nil => simp
+      | cons k ks =>
+        have h := wsStrip_pad [] content.toList (indentOf (level + 1)) rfl (indent_ws _)
+        simpa using h
+
+/-- the text that follows a child element is its tail up to surrounding white space -/
+theorem C07_general_tail (pns : Dict) (level : Nat) (closing : Str) (hc : closing.all isWs = true) (cs : List Tree) :
+    ∀ p ∈ (pairsG pns level closing cs).zip cs, wsStrip p.1.2 = wsStrip (tailText p.2) := by
+  induction cs with
+  | nil => intro p hp; simp [pairsG] at hp
+  | cons c cs ih =>
+    intro p hp
+    simp only [pairsG, List.zip_cons_cons, List.mem_cons] at hp
+    rcases hp with rfl | hp
+    · simp only
+      have hw : (match cs with | [] => closing | _ => indentOf level).all isWs = true := by
+        cases cs with
+        | nil => exact hc
+        | cons _ _ => exact indent_ws level
+      exact wsStrip_pad "\n".toList (tailText c) _ rfl hw
+    · exact ih p hp
+
+/- ------------------------------------------------------------------ namespace scoping -/
+
+/-- XML scoping: declarations on an element override the bindings in scope on its parent -/
+def inScope (parentScope decls : Dict) : Dict := decls.foldl (fun d kv => d.set kv.1 kv.2) parentScope
+
+theorem get?_set_self : ∀ (d : Dict) (k v : String), (d.set k v).get? k = some v
+  | [], k, v => by simp [Dict.set, Dict.get?]
+  | (k', v') :: d, k, v => by
+    simp only [Dict.set]
+    by_cases hb : (k' == k) = true
+    · rw [if_pos hb]; simp [Dict.get?, hb]
+    · rw [if_neg hb]
+      have hb' : (k' == k) = false := by simpa using hb
+      have ih := get?_set_self d k v
+      simp only [Dict.get?, List.find?_cons, hb'] at ih ⊢
+      exact ih
+
+theorem get?_set_ne : ∀ (d : Dict) (k v x : String), x ≠ k → (d.set k v).get? x = d.get? x
+  | [], k, v, x, h => by
+    have : (k == x) = false := by simpa using fun e => h e.symm
+    simp [Dict.set, Dict.get?, this]
+  | (k', v') :: d, k, v, x, h => by
+    simp only [Dict.set]
+    by_cases hb : (k' == k) = true
+    · rw [if_pos hb]
+      have hk : k' = k := by simpa using hb
+      have : (k' == x) = false := by simpa [hk] using fun e => h e.symm
+      simp [Dict.get?, this]
+    · rw [if_neg hb]
+      have ih := get?_set_ne d k v x h
+      simp only [Dict.get?, List.find?_cons] at ih ⊢
+      cases hx : (k' == x) with
+      | true => rfl
+      | false => exact ih
+
+theorem get?_none_of_not_key : ∀ (d : Dict) (k : String), k ∉ d.keys → Dict.get? d k = none
+  | [], k, _ => rfl
+  | kv :: d, k, h => by
+    simp only [Dict.keys, List.map_cons, List.mem_cons, not_or] at h
+    have hb : (kv.1 == k) = false := by simpa using fun e => h.1 e.symm
+    simp only [Dict.get?, List.find?_cons, hb]
+    exact get?_none_of_not_key d k h.2
+
+theorem inScope_get? : ∀ (decls base : Dict) (k : String), decls.keys.Nodup →
+    Dict.get? (inScope base decls) k = match Dict.get? decls k with | some v => some v | none => Dict.get? base k
+  | [], base, k, _ => by simp [inScope, Dict.get?]
+  | (dk, dv) :: decls, base, k, hnd => by
+    simp only [Dict.keys, List.map_cons, List.nodup_cons] at hnd
+    have ih := inScope_get? decls (Dict.set base dk dv) k hnd.2
+    simp only [inScope, List.foldl_cons] at ih ⊢
+    rw [ih]
+    by_cases hk : dk = k
+    · subst hk
+      have hnone : Dict.get? decls dk = none := get?_none_of_not_key decls dk hnd.1
+      rw [hnone]
+      simp only [get?_set_self]
+      simp [Dict.get?]
+    · have hb : (dk == k) = false := by simpa using hk
+      rw [get?_set_ne base dk dv k (fun e => hk e.symm)]
+      simp only [Dict.get?, List.find?_cons, hb]
+
+theorem get?_filter (p : String × String → Bool) : ∀ (d : Dict) (k : String), d.keys.Nodup →
+    Dict.get? (d.filter p) k = match Dict.get? d k with | some v => if p (k, v) then some v else none | none => none
+  | [], k, _ => by simp [Dict.get?]
+  | kv :: d, k, hnd => by
+    simp only [Dict.keys, List.map_cons, List.nodup_cons] at hnd
+    have ih := get?_filter p d k hnd.2
+    by_cases hk : kv.1 = k
+    · have hb : (kv.1 == k) = true := by simpa using hk
+      have hdn : Dict.get? d k = none := get?_none_of_not_key d k (by rw [← hk]; exact hnd.1)
+      have hkv : kv = (k, kv.2) := by rw [← hk]
+      rw [hdn] at ih
+      simp only [List.filter_cons]
+      by_cases hp : p kv = true
+      · rw [if_pos hp]
+        simp only [Dict.get?, List.find?_cons, hb, Option.map_some]
+        rw [← hkv, if_pos hp]
+      · rw [if_neg hp, ih]
+        simp only [Dict.get?, List.find?_cons, hb, Option.map_some]
+        rw [← hkv, if_neg hp]
+    · have hb : (kv.1 == k) = false := by simpa using hk
+      simp only [List.filter_cons]
+      split
+      · simp only [Dict.get?, List.find?_cons, hb] at ih ⊢; exact ih
+      · simp only [Dict.get?, List.find?_cons, hb] at ih ⊢; exact ih
+
+/-- with namespace maps that include their parent's (NsClosed), re-declaring only the bindings that differ
+    from the parent reconstructs exactly the child's map on re-parsing -/
+theorem C07_ns_scoping (child parent : Dict) (hc : child.keys.Nodup)
+    (hclosed : ∀ k, Dict.get? parent k ≠ none → Dict.get? child k ≠ none) :
+    ∀ k, Dict.get? (inScope parent (nspUnique child parent)) k = Dict.get? child k := by
+  intro k
+  have hnd : (nspUnique child parent).keys.Nodup := by
+    unfold nspUnique Dict.keys
+    exact hc.sublist (List.Sublist.map _ List.filter_sublist)
+  rw [inScope_get? _ _ k hnd]
+  unfold nspUnique
+  rw [get?_filter _ child k hc]
+  cases hcv : Dict.get? child k with
+  | none =>
+    simp only
+    cases hp : Dict.get? parent k with
+    | none => rfl
+    | some pv => exact absurd hcv (hclosed k (by rw [hp]; simp))
+  | some v =>
+    simp only
+    cases hp : Dict.get? parent k with
+    | none => simp
+    | some pv =>
+      simp only
+      by_cases hne : (pv != v) = true
+      · simp [hne]
+      · have : pv = v := by simpa using hne
+        simp [this]
+
+/- ------------------------------------------------------------------ the EML exporter -/
+
+def boilerDict : Dict :=
+  [("xmlns:eml", "https://eml.ecoinformatics.org/eml-2.2.0"), ("xmlns:stmml", "http://www.xml-cml.org/schema/stmml-1.2"),
+   ("xmlns:xsi", "http://www.w3.org/2001/XMLSchema-instance"),
+   ("xsi:schemaLocation", "https://eml.ecoinformatics.org/eml-2.2.0 https://nis.lternet.edu/schemas/EML/eml-2.2.0/xsd/eml.xsd")]
+
+theorem boiler_items : attrItems [] boilerDict = " ".toList ++ emlBoiler := by decide +kernel
+
+theorem boiler_ok : dictOK [] boilerDict := by
+  intro kv hkv
+  simp only [boilerDict, List.mem_cons, List.not_mem_nil, or_false] at hkv
+  rcases hkv with rfl | rfl | rfl | rfl <;> exact ⟨by decide, by intro c hc; revert c; decide⟩
+
+def isEmlRoot (n : String) (level : Nat) : Bool := level == 0 && n == "eml"
+def nameE (n : String) (level : Nat) : Str := if isEmlRoot n level then n.toList ++ ":".toList ++ n.toList else n.toList
+def attrListE (a : Dict) (n : String) (level : Nat) : List (Str × Str) :=
+  a.map (fun kv => (kv.1.toList, kv.2.toList)) ++
+  (if isEmlRoot n level then boilerDict.map (fun kv => (kv.1.toList, kv.2.toList)) else [])
+
+mutual
+/-- the property's quantifier for the EML exporter: legal names and characters, no node carries both text and
+    children, and content is free of the spellings the documented workaround treats specially -/
+def LegalE : Tree → Nat → Prop
+  | .mk _ n c _ _ a _ _ cs, level =>
+      qName (nameE n level) = true ∧ dictOK [] a ∧ ((attrListE a n level).map (·.1)).Nodup ∧ textOK c ∧
+      (c ≠ none → cs = []) ∧ (∀ x, c = some x → emlContent x.toList = escapeText x.toList) ∧ LegalEL cs (level + 1)
+def LegalEL : List Tree → Nat → Prop
+  | [], _ => True
+  | c :: cs, level => LegalE c level ∧ LegalEL cs level
+end
+
+def indentE (level : Nat) : Str := (List.replicate level "    ".toList).flatten
+
+theorem indentE_chardata (level : Nat) : CharData (indentE level) (indentE level) := by
+  unfold indentE
+  induction level with
+  | zero => exact CharData.nil
+  | succ k ih =>
+    simp only [List.replicate_succ, List.flatten_cons]
+    have sp : ∀ {s v}, CharData s v → CharData (' ' :: s) (' ' :: v) :=
+      fun h => CharData.lit ' ' (by decide) (by decide) (by decide) (by decide) h
+    exact sp (sp (sp (sp ih)))
+
+mutual
+def xElemE : Tree → Nat → X
+  | .mk _ n c _ _ a _ _ cs, level =>
+      .elem (nameE n level) (attrListE a n level)
+        (match c with
+         | some content => [X.text content.toList]
+         | none => match cs with
+           | [] => []
+           | _ => [X.text "\n".toList] ++ xKidsE cs (level + 1) ++ [X.text (indentE level)])
+def xKidsE : List Tree → Nat → List X
+  | [], _ => []
+  | c :: cs, level => [X.text (indentE level), xElemE c level, X.text "\n".toList] ++ xKidsE cs level
+end
+
+theorem attrsE_den (a : Dict) (n : String) (level : Nat) (ha : dictOK [] a) :
+    AttrsDen (attrItems [] a ++ (if isEmlRoot n level then " ".toList ++ emlBoiler else [])) (attrListE a n level) := by
+  unfold attrListE
+  have h1 := attrItems_den [] a ha
+  simp only [List.nil_append] at h1
+  apply AttrsDen_append h1
+  split
+  · rw [← boiler_items]
+    have := attrItems_den [] boilerDict boiler_ok
+    simpa using this
+  · exact AttrsDen.nil
+
+mutual
+/-- the EML exporter's output for a legal tree is indentation, one well-formed element denoting `xElemE`, a newline -/
+theorem toXmlE_den : ∀ (t : Tree) (level : Nat), LegalE t level →
+    ∃ e, toXmlE t level = indentE level ++ e ++ "\n".toList ∧ Den e (xElemE t level)
+  | .mk i n c tl p a ex ns cs, level, h => by
+    simp only [LegalE] at h
+    obtain ⟨hq, ha, hnd, hc, hboth, hwork, hkids⟩ := h
+    have hattr := attrsE_den a n level ha
+    have hname : (if level = 0 ∧ n = "eml" then n.toList ++ ":".toList ++ n.toList else n.toList) = nameE n level := by
+      unfold nameE isEmlRoot
+      by_cases h0 : level = 0 ∧ n = "eml"
+      · simp [h0]
+      · rw [if_neg h0]
+        have : (level == 0 && n == "eml") = false := by
+          simp only [Bool.and_eq_false_iff, beq_eq_false_iff_ne, ne_eq]
+          by_cases hl : level = 0
+          · right; exact fun hn => h0 ⟨hl, hn⟩
+          · left; exact hl
+        simp [this]
+    have hattrs : (if level = 0 ∧ n = "eml" then attrItems [] a ++ " ".toList ++ emlBoiler else attrItems [] a) =
+        attrItems [] a ++ (if isEmlRoot n level then " ".toList ++ emlBoiler else []) := by
+      unfold isEmlRoot
+      by_cases h0 : level = 0 ∧ n = "eml"
+      · simp [h0]
+      · rw [if_neg h0]
+        have : (level == 0 && n == "eml") = false := by
+          simp only [Bool.and_eq_false_iff, beq_eq_false_iff_ne, ne_eq]
+          by_cases hl : level = 0
+          · right; exact fun hn => h0 ⟨hl, hn⟩
+          · left; exact hl
+        simp [this]
+    cases c with
+    | some content =>
+      have hcs : cs = [] := hboth (by simp)
+      subst hcs
+      refine ⟨"<".toList ++ nameE n level ++ (attrItems [] a ++ (if isEmlRoot n level then " ".toList ++ emlBoiler else [])) ++ ">".toList ++
+          escapeText content.toList ++ "</".toList ++ nameE n level ++ ">".toList, ?_, ?_⟩
+      · simp only [toXmlE, toXmlEL, hname, hattrs, hwork content rfl]
+        simp only [indentE, List.append_assoc, List.append_nil]
+      · simp only [xElemE]
+        have hb : DenL (escapeText content.toList) [X.text content.toList] := by
+          have := DenL.text (escapeText_den content.toList (hc content rfl)) DenL.nil
+          simpa using this
+        exact Den.pair hq hattr hnd hb
+    | none =>
+      cases cs with
+      | nil =>
+        refine ⟨"<".toList ++ nameE n level ++ (attrItems [] a ++ (if isEmlRoot n level then " ".toList ++ emlBoiler else [])) ++ ">".toList ++
+            [] ++ "</".toList ++ nameE n level ++ ">".toList, ?_, ?_⟩
+        · simp only [toXmlE, hname, hattrs]
+          simp only [indentE, List.append_assoc, List.append_nil, List.nil_append]
+        · simp only [xElemE]
+          exact Den.pair hq hattr hnd DenL.nil
+      | cons k ks =>
+        obtain ⟨hk⟩ := toXmlEL_den (k :: ks) (level + 1) hkids
+        refine ⟨"<".toList ++ nameE n level ++ (attrItems [] a ++ (if isEmlRoot n level then " ".toList ++ emlBoiler else [])) ++ ">".toList ++
+            ("\n".toList ++ toXmlEL (k :: ks) (level + 1) ++ indentE level) ++ "</".toList ++ nameE n level ++ ">".toList, ?_, ?_⟩
+        · simp only [toXmlE, hname, hattrs]
+          simp only [indentE, List.append_assoc]
+        · simp only [xElemE]
+          have h1 : DenL (indentE level) [X.text (indentE level)] := by
+            have := DenL.text (indentE_chardata level) DenL.nil
+            simpa using this
+          have h2 := DenL_append hk h1
+          have h3 := DenL.text (CharData.lit '\n' (by decide) (by decide) (by decide) (by decide) CharData.nil) h2
+          have hb : DenL ("\n".toList ++ toXmlEL (k :: ks) (level + 1) ++ indentE level)
+              ([X.text "\n".toList] ++ xKidsE (k :: ks) (level + 1) ++ [X.text (indentE level)]) := by
+            simpa [List.append_assoc] using h3
+          exact Den.pair hq hattr hnd hb
+theorem toXmlEL_den : ∀ (cs : List Tree) (level : Nat), LegalEL cs level → Nonempty (DenL (toXmlEL cs level) (xKidsE cs level))
+  | [], _, _ => ⟨DenL.nil⟩
+  | c :: cs, level, h => by
+    simp only [LegalEL] at h
+    obtain ⟨ih⟩ := toXmlEL_den cs level h.2
+    obtain ⟨e, he, hd⟩ := toXmlE_den c level h.1
+    refine ⟨?_⟩
+    simp only [toXmlEL, xKidsE, he]
+    have h3 := DenL.text (CharData.lit '\n' (by decide) (by decide) (by decide) (by decide) CharData.nil) ih
+    have h2 := DenL.elem hd h3
+    have h1 := DenL.text (indentE_chardata level) h2
+    simpa [List.append_assoc] using h1
+end
+
+/-- the EML exporter emits a well-formed document for every tree in the property's quantifier; the element it denotes
+    has the tree's names, attributes (plus the boilerplate declarations on an `eml` root), child order and text -/
+theorem C07_eml_wellformed (t : Tree) (h : LegalE t 0) : DocDen (toXmlE t 0) (xElemE t 0) := by
+  obtain ⟨e, he, hd⟩ := toXmlE_den t 0 h
+  exact ⟨e, "\n".toList, by rw [he]; simp [indentE], hd, by decide⟩
+
 end Metapype
